@@ -51,13 +51,15 @@ VARIABLES
   owedP,      \* what the peer still has to answer, wire order: [id, a]
   nbad, uses,
   mon,        \* monitor state (SinkMon)
-  hist        \* command history (replay file); not part of the VIEW
+  hist,       \* command history (replay file); not part of the VIEW
+  pred        \* events emitted by the last action (trace validation compares them with the recorded ones); not in the VIEW
 
-vars == <<inflight, ids, waiters, received, wrb, nextId, closed, cap, sd, owedP, nbad, uses, mon, hist>>
+vars == <<inflight, ids, waiters, received, wrb, nextId, closed, cap, sd, owedP, nbad, uses, mon, hist, pred>>
 view == <<inflight, ids, waiters, received, wrb, nextId, closed, cap, sd, owedP, nbad, uses, mon>>
 
 E(e, k, s, id, q, r, n) == [e |-> e, k |-> k, s |-> s, id |-> id, q |-> q, r |-> r, n |-> n, x |-> ""]
 Quiet == E("quiet", "alive", 0, 0, 0, 0, 0)
+Emit(evs) == mon' = Mon!StepAll(mon, evs) /\ pred' = evs
 
 NoSender == [pc |-> "idle", w |-> "none", a |-> "none", av |-> "none", id |-> 0, cid |-> 0,
              res |-> "none"]
@@ -71,7 +73,7 @@ Init ==
             << [E("reset", "server", 0, 0, Ver, 0, 0) EXCEPT !.x = "server"],
                E("cfg", "max_send", 0, 0, 0, 0, Cap) >>
             \o (IF PreHs THEN << >> ELSE << E("out", "CONNACK", 0, 0, 0, 0, 0) >>))
-  /\ hist = << >>
+  /\ hist = << >> /\ pred = << >>
 
 ----------------------------------------------------------------------------
 \* helpers over the code's data structures
@@ -153,31 +155,31 @@ Send(s, cid) ==
        THEN \* async fn: nothing happens at call time
             /\ sd' = [sd EXCEPT ![s] = [base EXCEPT !.pc = "lazy"]]
             /\ UNCHANGED <<inflight, ids, waiters, nextId, owedP>>
-            /\ mon' = Mon!StepAll(mon, <<call, Quiet>>)
+            /\ Emit(<<call, Quiet>>)
      ELSE IF closed
        THEN /\ sd' = [sd EXCEPT ![s] = [base EXCEPT !.pc = "rdy", !.res = "Disconnected"]]
             /\ UNCHANGED <<inflight, ids, waiters, nextId, owedP>>
-            /\ mon' = Mon!StepAll(mon, <<call, Quiet>>)
+            /\ Emit(<<call, Quiet>>)
      ELSE IF kind = "q1" /\ Ver = 5
        THEN \* v5 QoS 1: the window is checked when the packet is encoded (first poll)
             /\ sd' = [sd EXCEPT ![s] = [base EXCEPT !.pc = "lazy"]]
             /\ UNCHANGED <<inflight, ids, waiters, nextId, owedP>>
-            /\ mon' = Mon!StepAll(mon, <<call, Quiet>>)
+            /\ Emit(<<call, Quiet>>)
      ELSE IF NotReady
        THEN \* wait_readiness() pushes a waiter at call time
             /\ sd' = [sd EXCEPT ![s] = [base EXCEPT !.pc = "parked", !.w = "pend"]]
             /\ waiters' = Append(waiters, s)
             /\ UNCHANGED <<inflight, ids, nextId, owedP>>
-            /\ mon' = Mon!StepAll(mon, <<call, Quiet>>)
+            /\ Emit(<<call, Quiet>>)
      ELSE IF kind = "ready"
        THEN /\ sd' = [sd EXCEPT ![s] = [base EXCEPT !.pc = "rdy", !.res = "ok"]]
             /\ UNCHANGED <<inflight, ids, waiters, nextId, owedP>>
-            /\ mon' = Mon!StepAll(mon, <<call, Quiet>>)
+            /\ Emit(<<call, Quiet>>)
      ELSE \* eager: id + encode happen inside the call
             LET r == Inner(s, [sd EXCEPT ![s] = base], inflight, ids, nextId, owedP) IN
             /\ sd' = r.tbl /\ inflight' = r.infl /\ ids' = r.ids /\ nextId' = r.nid
             /\ owedP' = r.owed /\ UNCHANGED waiters
-            /\ mon' = Mon!StepAll(mon, <<call>> \o r.evs \o <<Quiet>>)
+            /\ Emit(<<call>> \o r.evs \o <<Quiet>>)
   /\ UNCHANGED <<received, wrb, closed, nbad>>
   /\ hist' = Append(hist, "s" \o ToString(s) \o ":" \o Kinds[s] \o ":" \o ToString(cid))
 
@@ -198,17 +200,17 @@ Poll(s) ==
            /\ UNCHANGED waiters
            /\ IF x.tbl[s].pc = "rdy"
                 THEN /\ sd' = [x.tbl EXCEPT ![s].pc = "done"]
-                     /\ mon' = Mon!StepAll(mon, <<poll("ready"), done("PacketIdInUse", x.tbl[s].id), Quiet>>)
+                     /\ Emit(<<poll("ready"), done("PacketIdInUse", x.tbl[s].id), Quiet>>)
                 ELSE /\ sd' = x.tbl
-                     /\ mon' = Mon!StepAll(mon, x.evs \o <<poll("pending"), Quiet>>)
+                     /\ Emit(x.evs \o <<poll("pending"), Quiet>>)
          Park ==
            /\ sd' = [sd EXCEPT ![s].pc = "parked", ![s].w = "pend"]
            /\ waiters' = Append(waiters, s)
-           /\ mon' = Mon!StepAll(mon, <<poll("pending"), Quiet>>)
+           /\ Emit(<<poll("pending"), Quiet>>)
            /\ UNCHANGED <<inflight, ids, nextId, owedP>>
          Finish(res, id) ==
            /\ sd' = [sd EXCEPT ![s].pc = "done"]
-           /\ mon' = Mon!StepAll(mon, <<poll("ready"), done(res, id), Quiet>>)
+           /\ Emit(<<poll("ready"), done(res, id), Quiet>>)
            /\ UNCHANGED <<inflight, ids, waiters, nextId, owedP>>
      IN
      CASE r.pc = "rdy" -> Finish(r.res, IF r.res = "PacketIdInUse" THEN r.id ELSE 0)
@@ -218,7 +220,7 @@ Poll(s) ==
             ELSE Proceed(sd)
        [] r.pc = "parked" ->
             (CASE r.w = "pend" ->
-                   /\ mon' = Mon!StepAll(mon, <<poll("pending"), Quiet>>)
+                   /\ Emit(<<poll("pending"), Quiet>>)
                    /\ UNCHANGED <<sd, inflight, ids, waiters, nextId, owedP>>
                [] r.w = "cancel" -> Finish("Disconnected", 0)
                [] r.w = "ok" ->
@@ -230,21 +232,21 @@ Poll(s) ==
                      THEN \* readiness does not use a slot: pass the notification on
                           LET w == WakeIfFree(waiters, [sd EXCEPT ![s].pc = "done"], inflight, received) IN
                           /\ sd' = w[2] /\ waiters' = w[1]
-                          /\ mon' = Mon!StepAll(mon, <<poll("ready"), done("ok", 0), Quiet>>)
+                          /\ Emit(<<poll("ready"), done("ok", 0), Quiet>>)
                           /\ UNCHANGED <<inflight, ids, nextId, owedP>>
                    ELSE Proceed(sd))
        [] r.pc = "ack" ->
             (CASE r.a = "pend" ->
-                   /\ mon' = Mon!StepAll(mon, <<poll("pending"), Quiet>>)
+                   /\ Emit(<<poll("pending"), Quiet>>)
                    /\ UNCHANGED <<sd, inflight, ids, waiters, nextId, owedP>>
                [] r.a = "cancel" -> Finish("Disconnected", 0)
                [] r.a = "ok" ->
                    /\ UNCHANGED <<inflight, ids, waiters, nextId, owedP>>
                    /\ IF MapAck(kind) = "receipt"
                         THEN /\ sd' = [sd EXCEPT ![s].pc = "hold"]
-                             /\ mon' = Mon!StepAll(mon, <<poll("ready"), done("receipt", r.id), Quiet>>)
+                             /\ Emit(<<poll("ready"), done("receipt", r.id), Quiet>>)
                         ELSE /\ sd' = [sd EXCEPT ![s].pc = "done"]
-                             /\ mon' = Mon!StepAll(mon, <<poll("ready"), done("ok", r.id), Quiet>>))
+                             /\ Emit(<<poll("ready"), done("ok", r.id), Quiet>>))
   /\ UNCHANGED <<received, wrb, closed, nbad, uses>>
   /\ hist' = Append(hist, "p" \o ToString(s))
 
@@ -260,13 +262,13 @@ Drop(s) ==
             /\ sd' = tbl /\ received' = received - 1
             /\ inflight' = Append(inflight, [id |-> sd[s].id, tx |-> 0, tp |-> "Complete"])
             /\ owedP' = Append(owedP, [id |-> sd[s].id, a |-> "PUBCOMP"])
-            /\ mon' = Mon!StepAll(mon, <<ev, E("out", "PUBREL", 0, sd[s].id, 0, 0, 0), Quiet>>)
+            /\ Emit(<<ev, E("out", "PUBREL", 0, sd[s].id, 0, 0, 0), Quiet>>)
             /\ UNCHANGED waiters
        ELSE \* Waiter::drop passes an unused notification on
             LET w == IF sd[s].pc = "parked" /\ sd[s].w = "ok"
                        THEN WakeIfFree(waiters, tbl, inflight, received) ELSE <<waiters, tbl>>
             IN /\ sd' = w[2] /\ waiters' = w[1]
-               /\ mon' = Mon!StepAll(mon, <<ev, Quiet>>)
+               /\ Emit(<<ev, Quiet>>)
                /\ UNCHANGED <<inflight, received, owedP>>
   /\ UNCHANGED <<ids, wrb, nextId, closed, nbad, uses>>
   /\ hist' = Append(hist, "d" \o ToString(s))
@@ -277,7 +279,7 @@ Drop(s) ==
 Violation(inEv) ==
   /\ closed' = TRUE /\ inflight' = << >> /\ waiters' = << >> /\ received' = 0
   /\ sd' = Cleared(sd)
-  /\ mon' = Mon!StepAll(mon,
+  /\ Emit(
        <<inEv>> \o (IF Ver = 5 /\ ~closed THEN <<E("out", "DISCONNECT", 0, 0, 0, 131, 0)>> ELSE << >>)
        \o <<E("ctl", "stop_proto", 0, 0, 0, 0, 0), E("conn_done", "ok", 0, 0, 0, 0, 0), Quiet>>)
   /\ UNCHANGED <<ids, wrb, nextId>>
@@ -298,20 +300,20 @@ AckIn(a, id, owed) ==
         THEN \* the sender takes the receipt; the exchange keeps its slot until PUBCOMP
              /\ inflight' = rest /\ received' = received + 1
              /\ sd' = [sd EXCEPT ![h.tx].a = "ok", ![h.tx].av = "Receive"]
-             /\ mon' = Mon!StepAll(mon, <<inEv, Quiet>>)
+             /\ Emit(<<inEv, Quiet>>)
              /\ owedP' = owed
              /\ UNCHANGED <<ids, waiters, wrb, nextId, closed>>
         ELSE \* sender is gone: the publish is released on its behalf
              /\ inflight' = Append(rest, [id |-> id, tx |-> 0, tp |-> "Complete"])
              /\ owedP' = Append(owed, [id |-> id, a |-> "PUBCOMP"])
-             /\ mon' = Mon!StepAll(mon, <<inEv, E("out", "PUBREL", 0, id, 0, 0, 0), Quiet>>)
+             /\ Emit(<<inEv, E("out", "PUBREL", 0, id, 0, 0, 0), Quiet>>)
              /\ UNCHANGED <<ids, waiters, received, wrb, nextId, closed, sd>>
     ELSE
       LET tbl1 == IF alive THEN [sd EXCEPT ![h.tx].a = "ok", ![h.tx].av = tpA] ELSE sd
           w == WakeN(waiters, tbl1, 1)
       IN /\ inflight' = rest /\ ids' = ids \ {id}
          /\ waiters' = w[1] /\ sd' = w[2]
-         /\ mon' = Mon!StepAll(mon, <<inEv, Quiet>>)
+         /\ Emit(<<inEv, Quiet>>)
          /\ owedP' = owed
          /\ UNCHANGED <<received, wrb, nextId, closed>>
 
@@ -338,7 +340,7 @@ Release(s) ==
   /\ LET rel == E("release", "", s, 0, 0, 0, RelOf(s)) IN
      IF closed \/ received = 0
        THEN /\ sd' = [sd EXCEPT ![s].pc = "done"]
-            /\ mon' = Mon!StepAll(mon, <<rel, E("send_poll", "ready", RelOf(s), 0, 0, 0, 0),
+            /\ Emit(<<rel, E("send_poll", "ready", RelOf(s), 0, 0, 0, 0),
                        E("send_done", IF closed THEN "Disconnected" ELSE "UnexpectedRelease", RelOf(s), 0, 0, 0, 0), Quiet>>)
             /\ UNCHANGED <<inflight, received, owedP>>
        ELSE \* PUBREL is written now, and PUBCOMP is expected in that order
@@ -346,7 +348,7 @@ Release(s) ==
             /\ inflight' = Append(inflight, [id |-> sd[s].id, tx |-> s, tp |-> "Complete"])
             /\ sd' = [sd EXCEPT ![s].pc = "relack", ![s].a = "pend"]
             /\ owedP' = Append(owedP, [id |-> sd[s].id, a |-> "PUBCOMP"])
-            /\ mon' = Mon!StepAll(mon, <<rel, E("out", "PUBREL", 0, sd[s].id, 0, 0, 0),
+            /\ Emit(<<rel, E("out", "PUBREL", 0, sd[s].id, 0, 0, 0),
                                          E("send_poll", "pending", RelOf(s), 0, 0, 0, 0), Quiet>>)
   /\ UNCHANGED <<ids, waiters, wrb, nextId, closed, nbad, uses>>
   /\ hist' = Append(hist, "r" \o ToString(s))
@@ -354,7 +356,7 @@ Release(s) ==
 RelPoll(s) ==
   /\ sd[s].pc = "relack" /\ sd[s].a \in {"ok", "cancel"}
   /\ sd' = [sd EXCEPT ![s].pc = "done"]
-  /\ mon' = Mon!StepAll(mon, <<E("send_poll", "ready", RelOf(s), 0, 0, 0, 0),
+  /\ Emit(<<E("send_poll", "ready", RelOf(s), 0, 0, 0, 0),
                                E("send_done", IF sd[s].a = "ok" THEN "ok" ELSE "Disconnected", RelOf(s), 0, 0, 0, 0), Quiet>>)
   /\ UNCHANGED <<inflight, ids, waiters, received, wrb, nextId, closed, owedP, nbad, uses>>
   /\ hist' = Append(hist, "p" \o ToString(RelOf(s)))
@@ -364,11 +366,11 @@ ReceiptDrop(s) ==
   /\ sd' = [sd EXCEPT ![s].pc = "done"]
   /\ LET ev == E("receipt_drop", "", s, 0, 0, 0, 0) IN
      IF closed \/ received = 0
-       THEN /\ mon' = Mon!StepAll(mon, <<ev, Quiet>>) /\ UNCHANGED <<inflight, received, owedP>>
+       THEN /\ Emit(<<ev, Quiet>>) /\ UNCHANGED <<inflight, received, owedP>>
        ELSE /\ received' = received - 1
             /\ inflight' = Append(inflight, [id |-> sd[s].id, tx |-> 0, tp |-> "Complete"])
             /\ owedP' = Append(owedP, [id |-> sd[s].id, a |-> "PUBCOMP"])
-            /\ mon' = Mon!StepAll(mon, <<ev, E("out", "PUBREL", 0, sd[s].id, 0, 0, 0), Quiet>>)
+            /\ Emit(<<ev, E("out", "PUBREL", 0, sd[s].id, 0, 0, 0), Quiet>>)
   /\ UNCHANGED <<ids, waiters, wrb, nextId, closed, nbad, uses>>
   /\ hist' = Append(hist, "x" \o ToString(s))
 
@@ -377,7 +379,7 @@ ReceiptDrop(s) ==
 WrbOn ==
   /\ UseWrb /\ ~wrb /\ ~closed /\ cap > 0
   /\ wrb' = TRUE
-  /\ mon' = Mon!StepAll(mon, <<E("ctl", "wrb_on", 0, 0, 0, 0, 0), Quiet>>)
+  /\ Emit(<<E("ctl", "wrb_on", 0, 0, 0, 0, 0), Quiet>>)
   /\ UNCHANGED <<inflight, ids, waiters, received, nextId, closed, sd, owedP, nbad, uses>>
   /\ hist' = Append(hist, "w1")
 
@@ -389,7 +391,7 @@ WrbOff ==
          w == WakeN(waiters, sd, n)
      IN /\ waiters' = IF n = 0 THEN waiters ELSE w[1]
         /\ sd' = IF n = 0 THEN sd ELSE w[2]
-  /\ mon' = Mon!StepAll(mon, <<E("ctl", "wrb_off", 0, 0, 0, 0, 0), Quiet>>)
+  /\ Emit(<<E("ctl", "wrb_off", 0, 0, 0, 0, 0), Quiet>>)
   /\ UNCHANGED <<inflight, ids, received, nextId, closed, owedP, nbad, uses>>
   /\ hist' = Append(hist, "w0")
 
@@ -400,7 +402,7 @@ HsDone ==
   /\ PreHs /\ cap = 0 /\ ~closed
   /\ LET w == WakeN(waiters, sd, Cap) IN waiters' = w[1] /\ sd' = w[2]
   /\ cap' = Cap
-  /\ mon' = Mon!StepAll(mon, <<E("h_end", "ok", 1, 0, 0, 0, 0), E("out", "CONNACK", 0, 0, 0, 0, 0), Quiet>>)
+  /\ Emit(<<E("h_end", "ok", 1, 0, 0, 0, 0), E("out", "CONNACK", 0, 0, 0, 0, 0), Quiet>>)
   /\ UNCHANGED <<inflight, ids, received, wrb, nextId, closed, owedP, nbad, uses>>
   /\ hist' = Append(hist, "h")
 
